@@ -97,6 +97,8 @@ pub struct TraceEntry {
     pub reads: Vec<ReadRes>,
     pub queries: Vec<QRes>,
     pub raw: Unjudged,
+    /// what the puppet found inconsistent about its own storage after its writes (no reference involved)
+    pub complaint: Unjudged,
 }
 
 /// Concrete (resolved) behaviour of one node, produced by the reference interpreter.
@@ -192,6 +194,46 @@ fn do_reads(storage: &dyn Storage, reads: &[Read]) -> Vec<ReadRes> {
         .collect()
 }
 
+/// After its writes a contract must see exactly them: `get` of every touched key, the full scan, and key /
+/// value scans bounded on both sides, in both orders, all describe one and the same map.
+fn own_writes_readable(storage: &dyn Storage, writes: &[Write]) -> Option<String> {
+    let mut touched: std::collections::BTreeMap<&[u8], Option<&[u8]>> = Default::default();
+    for w in writes {
+        match w {
+            Write::Set(k, v) => touched.insert(&k.0, Some(&v.0)),
+            Write::Remove(k) => touched.insert(&k.0, None),
+        };
+    }
+    let all: Vec<(Vec<u8>, Vec<u8>)> = storage.range(None, None, Order::Ascending).collect();
+    for (k, want) in &touched {
+        let got = storage.get(k);
+        if got.as_deref() != *want {
+            return Some(format!("get({}) = {:?} after own write {:?}", hex::encode(k), got.map(hex::encode), want.map(hex::encode)));
+        }
+        let listed = all.iter().filter(|(x, _)| x.as_slice() == *k).map(|(_, v)| v.as_slice()).collect::<Vec<_>>();
+        if listed != want.iter().copied().collect::<Vec<_>>() {
+            return Some(format!("scan lists key {} {} times after own write {:?}", hex::encode(k), listed.len(), want.map(hex::encode)));
+        }
+    }
+    // bounded on both sides: from the smallest possible key up to (excluding) a bound beyond the short keys
+    let (lo, hi): (&[u8], &[u8]) = (b"", &[0xff, 0xff, 0xff, 0xff, 0xff]);
+    let inside: Vec<&(Vec<u8>, Vec<u8>)> = all.iter().filter(|(k, _)| k.as_slice() < hi).collect();
+    for order in [Order::Ascending, Order::Descending] {
+        let mut keys: Vec<Vec<u8>> = storage.range_keys(Some(lo), Some(hi), order).collect();
+        let mut vals: Vec<Vec<u8>> = storage.range_values(Some(lo), Some(hi), order).collect();
+        let mut both: Vec<(Vec<u8>, Vec<u8>)> = storage.range(Some(lo), Some(hi), order).collect();
+        if order == Order::Descending {
+            keys.reverse();
+            vals.reverse();
+            both.reverse();
+        }
+        if keys != inside.iter().map(|(k, _)| k.clone()).collect::<Vec<_>>() || vals != inside.iter().map(|(_, v)| v.clone()).collect::<Vec<_>>() || both.iter().collect::<Vec<_>>() != inside {
+            return Some(format!("bounded scans ({:?}) after own writes: {} keys, {} values, {} pairs; the full scan has {} entries below the bound", order, keys.len(), vals.len(), both.len(), inside.len()));
+        }
+    }
+    None
+}
+
 pub fn all_balances_request(addr: &str) -> Vec<u8> {
     #[allow(deprecated)]
     let req: cosmwasm_std::QueryRequest<XQuery> = cosmwasm_std::BankQuery::AllBalances { address: addr.to_string() }.into();
@@ -254,6 +296,7 @@ fn run_entry(kind: Kind, tag: u32, storage: &mut dyn Storage, querier: &dyn Quer
         reads: vec![],
         queries: vec![],
         raw: Unjudged(format!("{} {}", cosmwasm_std::to_json_string(env).unwrap_or_default(), reply.map(|r| cosmwasm_std::to_json_string(r).unwrap_or_default()).unwrap_or_default())),
+        complaint: Unjudged::default(),
     };
     let Some(rtn) = rtn else {
         // node unknown to the plan (the real run diverged from the reference): record and return empty
@@ -272,6 +315,13 @@ fn run_entry(kind: Kind, tag: u32, storage: &mut dyn Storage, querier: &dyn Quer
         match w {
             Write::Set(k, v) => storage.set(&k.0, &v.0),
             Write::Remove(k) => storage.remove(&k.0),
+        }
+    }
+    // the contract reads its own writes back, in every form the Storage trait offers (no reference needed:
+    // whatever disagrees is recorded next to the trace entry and reported after the comparison with the reference)
+    if !rtn.writes.is_empty() {
+        if let Some(complaint) = own_writes_readable(storage, &rtn.writes) {
+            entry.complaint = Unjudged(complaint);
         }
     }
     entry.queries = rtn.queries.iter().map(|q| raw_query(querier, q)).collect();
@@ -314,6 +364,7 @@ fn run_query(tag: u32, storage: &dyn Storage, querier: &dyn Querier, env: &Env, 
         reads: vec![],
         queries: vec![],
         raw: Unjudged(cosmwasm_std::to_json_string(env).unwrap_or_default()),
+        complaint: Unjudged::default(),
     };
     let Some(q) = q else {
         RT.with(|rt| rt.borrow_mut().trace.push(entry));
